@@ -9,6 +9,7 @@ usable (a following fault-free process() on the same object gives the reference 
 replayed through the Lean machine with the same fault plan (outcome raised, locks free, final, every other block
 completed).  The analogues for compare (block read) and stats (read_masks / read) are enumerated too.
 """
+import pathlib
 import warnings
 
 import numpy as np
@@ -152,6 +153,7 @@ def run(run: common.Run):
     persistent_read_failure(run, tmp, pair, mbm)
     if run.only is None and not getattr(run, 'hung', False):
         cli_compare_stats_faults(run, tmp, pair, mbm)
+        reprojected_inputs_closed(run, tmp)
 
 
 def cli_faults(run, tmp, pair, bsig, model, kernel, mbm, njobs):
@@ -285,6 +287,75 @@ def cli_compare_stats_faults(run, tmp, pair, mbm):
                         run.fail(case, f'`homonim stats` exited 0 although call {k} of {meth} failed', signature=dict(kind='cli-exit-zero', op='stats'))
                     elif k is None and res.exit_code != 0:
                         run.fail(case, f'fault-free `homonim stats` exited {res.exit_code}', signature=dict(kind='cli', op='stats'))
+
+
+def reprojected_inputs_closed(run, tmp):
+    """
+    Pairs that homonim reads through a re-projection (an image stored south-up; images in different coordinate systems): after the
+    `with` block - whether the run succeeded or a block read failed - no file descriptor of the process points at the source or the
+    reference any more, for fuse and for compare.
+    """
+    import os
+    import rasters
+    from homonim import RasterFuse, RasterCompare
+    from homonim.enums import Model
+    g_r = rasters.Grid(8 * 6000, 8 * 2000, 16, 16, 30, 26)
+    g_s = rasters.Grid(8 * 6000 + 32, 8 * 2000 - 32, 8, 8, 40, 36)
+    rng = run.rng('vrt-closed')
+    s = np.array([[[rng.randint(20, 200) for _ in range(g_s.w)] for _ in range(g_s.h)]], float)
+    r = np.array([[[rng.randint(30, 150) for _ in range(g_r.w)] for _ in range(g_r.h)]], float)
+
+    def open_fds(paths):
+        names = []
+        for fd in os.listdir('/proc/self/fd'):
+            try:
+                t = os.readlink(f'/proc/self/fd/{fd}')
+            except OSError:
+                continue
+            if any(t == str(p_) for p_ in paths):
+                names.append(pathlib.Path(t).name)
+        return sorted(names)
+    for k, (south_ref, south_src) in enumerate(((True, False), (False, True))):
+        pair = fusion.write_pair(tmp, f'c09vrt{k}', g_s, g_r, s, r, None, None, src_kw=dict(south_up=south_src), ref_kw=dict(south_up=south_ref))
+        paths = [pair.src_path.resolve(), pair.ref_path.resolve()]
+        for cls, fail in ((RasterFuse, False), (RasterFuse, True), (RasterCompare, False), (RasterCompare, True)):
+            case = dict(i=6 * 10**6 + 10 * k + 2 * (cls is RasterCompare) + fail, op='inputs read through a re-projection are closed',
+                        south_up='reference' if south_ref else 'source', cls=cls.__name__, failing_block=fail)
+            raised = None
+            with warnings.catch_warnings():
+                warnings.simplefilter('ignore')
+                obj = cls(pair.src_path, pair.ref_path)
+                orig = cls.read
+                cnt = {'n': 0}
+
+                def read(self, bp):
+                    cnt['n'] += 1
+                    if fail and cnt['n'] == 2:
+                        raise sc.InjectedFault('injected read failure')
+                    return orig(self, bp)
+                cls.read = read
+                try:
+                    with obj:
+                        if cls is RasterFuse:
+                            obj.process(tmp / 'c09vrt_out.tif', Model.gain, (1, 1), overwrite=True, build_ovw=False,
+                                        block_config=dict(threads=2, max_block_mem=2e-3))
+                        else:
+                            obj.process(threads=2, max_block_mem=2e-3)
+                except Exception as ex:
+                    raised = ex
+                finally:
+                    cls.read = orig
+            run.evaluations += 1
+            run.hist['re-projected input pairs: descriptors checked'] += 1
+            run.nontrivial.add(('vrt-closed', k, cls.__name__, fail))
+            left = open_fds(paths)
+            if fail and raised is None:
+                run.fail(case, 'the injected read failure was swallowed', signature=dict(kind='swallowed', op='vrt'))
+            elif not fail and raised is not None:
+                run.fail(case, f'raised {type(raised).__name__}: {raised}', signature=dict(kind='raises', op='vrt'))
+            elif left:
+                run.fail(case, f'after the `with` block ({"failed" if fail else "successful"} run) the process still holds open descriptors of {left}',
+                         signature=dict(kind='leak-input', op='vrt'))
 
 
 def persistent_read_failure(run, tmp, pair, mbm):
